@@ -368,17 +368,17 @@ func genChain6(r *Rng, inner dhcpv6.DHCPv6, spec chainSpec) dhcpv6.DHCPv6 {
 		}
 		switch r.Intn(5) {
 		case 0, 1:
-			put(dhcpv6.OptInterfaceID(r.Bytes(r.Range(0, 8))))
+			put(dhcpv6.OptInterfaceID(genData(r, 0, 14)))
 		case 2:
-			put(dhcpv6.OptInterfaceID(r.Bytes(r.Range(1, 8))))
-			put(dhcpv6.OptInterfaceID(r.Bytes(r.Range(1, 8))))
+			put(dhcpv6.OptInterfaceID(genData(r, 1, 14)))
+			put(dhcpv6.OptInterfaceID(genData(r, 1, 14)))
 		}
 		switch r.Intn(5) {
 		case 0, 1:
-			put(&dhcpv6.OptRemoteID{EnterpriseNumber: uint32(r.U64()), RemoteID: r.Bytes(r.Range(0, 8))})
+			put(&dhcpv6.OptRemoteID{EnterpriseNumber: uint32(r.U64()), RemoteID: genData(r, 0, 14)})
 		case 2:
-			put(&dhcpv6.OptRemoteID{EnterpriseNumber: uint32(r.U64()), RemoteID: r.Bytes(r.Range(1, 8))})
-			put(&dhcpv6.OptRemoteID{EnterpriseNumber: uint32(r.U64()), RemoteID: r.Bytes(r.Range(1, 8))})
+			put(&dhcpv6.OptRemoteID{EnterpriseNumber: uint32(r.U64()), RemoteID: genData(r, 1, 14)})
+			put(&dhcpv6.OptRemoteID{EnterpriseNumber: uint32(r.U64()), RemoteID: genData(r, 1, 14)})
 		}
 		if r.Chance(1, 5) {
 			put(genOpt6(r, r.Pick([]int{79, 79, 135, 17, 300}), 0, false))
